@@ -294,7 +294,11 @@ class Lexer:
             elif self.read() == "\\" and self.read(2).isprintable():
                 value = self.read(2)
                 self.pos += 2
-            elif self.read().isprintable():
+            elif self.read() != "" and (
+                self.read().isprintable() or self.read() in "\t\v\f"
+            ):
+                # Horizontal tab, vertical tab and form feed are members of
+                # the basic source character set.
                 value = self.read()
                 self.pos += 1
             else:
